@@ -88,7 +88,9 @@ def is_derived(cls: str, field: str) -> bool:
 FREE_TEXT_FIELDS = {"oid", "long_name", "semantic", "display_name", "key_label", "struct_label", "short_label",
                     "vt", "display_trouble_code", "text", "role", "department", "address", "zip", "city", "phone",
                     "fax", "email", "info", "revision_label", "state", "tool", "reason", "caption", "si",
-                    "category", "syntax", "encryption", "revision", "value", "teammember", "ti"}
+                    "category", "syntax", "encryption", "revision", "value", "teammember", "ti",
+                    "semantic_info", "text_identifier", "href", "description", "company_revision_info",
+                    "change", "doc_type", "doc_label", "doc_revision_label"}
 META_TEXT = 'v<&>"\'äß'
 META_XHTML = "<p>a &amp; b &lt; c ä</p>"
 # white space other than the blank: survives in XML attribute values only if written as character references
@@ -204,6 +206,8 @@ def worker_init() -> None:
             if key not in seen:
                 seen.add(key)
                 pairs.append((name, key, "plain"))
+                if t["kind"] == "populate" and populate_meta_allowed(t["cls"], t["field"]):
+                    pairs.append((name, key, "meta"))
                 if t["kind"] in ("populate", "retarget"):
                     continue
                 if t["kind"] == "leaf" and t["field"] in FREE_TEXT_FIELDS and "str" in t["type"]:
@@ -333,7 +337,7 @@ def build_zoo_db(seed: int):
         from ..zoo.layers import build_matrix_builder
         from ..zoo.mk import mk
         db = Database()
-        for kind in (("compu",) if seed == 7 else ("lengths", "structs")):
+        for kind in (("compu",) if seed == 7 else ("lengths", "structs", "consts", "features")):
             cname = f"zoomatrix_{kind}"
             b = build_matrix_builder(kind, container=cname)
             frag = OdxDocFragment(cname, DocType.CONTAINER)
@@ -450,6 +454,21 @@ def retarget_allowed(cls: str, field: str) -> bool:
     return f"{cls}.{field}" in _RETARGET_OK
 
 
+_POPULATE_META_OK: Optional[set] = None
+
+
+def populate_meta_allowed(cls: str, field: str) -> bool:
+    """'populate' with XML metacharacters in every free-text value of the synthesized element: restricted to the
+    pairs validated on the (repaired) pinned tree, vsim/props/c11_populate_meta_ok.json (tools/triage_populate.py meta)."""
+    global _POPULATE_META_OK
+    if os.environ.get("VERIF_C11_ALL_POPULATE"):
+        return True
+    if _POPULATE_META_OK is None:
+        p = os.path.join(os.path.dirname(os.path.abspath(__file__)), "c11_populate_meta_ok.json")
+        _POPULATE_META_OK = set(json.load(open(p))) if os.path.exists(p) else set()
+    return f"{cls}.{field}" in _POPULATE_META_OK
+
+
 def context_key(owner: Any) -> str:
     """Coarse context of an element (used to pick instances of a (class, field) pair in different
     contexts): for parameters the kind and base type of the referenced data object."""
@@ -535,7 +554,7 @@ def _dc_in_type(tp) -> Optional[Tuple[str, Any]]:
     return None
 
 
-def synthesize(cls, frags, index: Dict[str, List[Any]], counter: List[int], depth: int = 0):
+def synthesize(cls, frags, index: Dict[str, List[Any]], counter: List[int], depth: int = 0, meta: bool = False):
     """Type-directed construction of an instance of an odxtools dataclass that the base database does
     not contain: primitives get visible values, references point to an existing object of the class the
     field name suggests, nested required elements are synthesized recursively (depth-limited)."""
@@ -558,6 +577,8 @@ def synthesize(cls, frags, index: Dict[str, List[Any]], counter: List[int], dept
         n = counter[0]
         if inner is str:
             kw[f.name] = f"V_{f.name}_{n}" if f.name in ("short_name",) else (f"v {f.name} {n}" if f.name in FREE_TEXT_FIELDS else f"v{n}")
+            if meta and f.name in FREE_TEXT_FIELDS:
+                kw[f.name] = META_XHTML if (cls.__name__ == "Description" and f.name == "text") else META_TEXT + str(n)
         elif inner is bool:
             kw[f.name] = True
         elif inner is int:
@@ -589,12 +610,25 @@ def synthesize(cls, frags, index: Dict[str, List[Any]], counter: List[int], dept
             kw[f.name] = OdxLinkRef.from_id(tgt.odx_id)
         elif typing.get_origin(inner) in (list, List):
             kw[f.name] = []
+            # one item for lists of plain (non-identifiable) elements, e.g. the SD entries of a special data group
+            item_tps = typing.get_args(inner)
+            cand_tps = list(typing.get_args(item_tps[0])) if item_tps and typing.get_origin(item_tps[0]) is typing.Union \
+                else list(item_tps)
+            for it_tp in reversed(cand_tps):
+                if isinstance(it_tp, type) and dataclasses.is_dataclass(it_tp) and depth < 3 and \
+                        it_tp.__name__ not in ("OdxLinkRef", "OdxLinkId", "OdxDocFragment") and \
+                        not any(ff.name == "odx_id" or "OdxLinkRef" in str(ff.type) for ff in dataclasses.fields(it_tp)):
+                    try:
+                        kw[f.name] = [synthesize(it_tp, frags, index, counter, depth + 1, meta)]
+                    except Exception:  # noqa: BLE001 - an item that cannot be synthesized: the list stays empty
+                        kw[f.name] = []
+                    break
         elif typing.get_origin(inner) is not None and getattr(typing.get_origin(inner), "__name__", "") == "NamedItemList":
             kw[f.name] = NamedItemList()
         elif typing.get_origin(inner) in (dict, Dict):
             kw[f.name] = {}
         elif isinstance(inner, type) and dataclasses.is_dataclass(inner):
-            kw[f.name] = None if optional else synthesize(inner, frags, index, counter, depth + 1)
+            kw[f.name] = None if optional else synthesize(inner, frags, index, counter, depth + 1, meta)
         elif optional:
             kw[f.name] = None
         else:
@@ -683,6 +717,8 @@ def new_value(target: Dict[str, Any], old: Any, vclass: str, n: int) -> Tuple[bo
     if target["kind"] == "list":
         return True, "append-copy"
     if target["kind"] == "populate":
+        if vclass == "meta" and populate_meta_allowed(target["cls"], target["field"]):
+            return True, "populate-meta"
         return (True, "populate") if vclass == "plain" else (False, None)
     if target["kind"] == "retarget":
         return (True, ["ref", target.get("donor")]) if vclass == "plain" and target.get("donor") else (False, None)
@@ -743,11 +779,12 @@ def apply_perturbation(db, pert: Dict[str, Any]) -> Tuple[Any, Any]:
     owner, last = get_path(db, pert["path"])
     old = step_into(owner, last)
     val = pert["value"]
-    if val == "populate":
+    if val in ("populate", "populate-meta"):
         fld = next(f for f in dataclasses.fields(owner) if f.name == last)
         kind, dc = _dc_in_type(fld.type)
         try:
-            obj = synthesize(dc, nearest_frags(db, pert["path"][:-1]), identifiable_index(db), [pert.get("n", 0)])
+            obj = synthesize(dc, nearest_frags(db, pert["path"][:-1]), identifiable_index(db), [pert.get("n", 0)],
+                             meta=(val == "populate-meta"))
         except Unsynthesizable:
             raise
         except Exception as e:  # noqa: BLE001 - the class refuses the synthesized field values (__post_init__)
